@@ -253,9 +253,9 @@ def run(ctx):
     failed = ctx.lean_obligations()
     go = ctx.build_go("views")
     model = ctx.build_model("m_views")
-    n_gen = ctx.pick(3200, 96000)
-    n_oracle = ctx.pick(3200, 64000)
-    segs_light, segs_heavy = ctx.pick(4, 5), ctx.pick(3, 4)
+    n_gen = ctx.pick(2400, 32000)
+    n_oracle = ctx.pick(2400, 32000)
+    segs_light, segs_heavy, segs_extra = ctx.pick(4, 5), ctx.pick(3, 4), ctx.pick(3, 4)
     ctx.rule = (
         "differential: %d random histories in %d shards from VERIF_SEED: reset, a random view stack of 1..4 layers "
         "{Filespace(p), sub-path view, memory wrapper, read-only mask, encrypted view (identity cipher), cache} over "
@@ -263,11 +263,12 @@ def run(ctx):
         "every level above the child root, then 6..30 calls (15 words + view/dump; inside handles: pool {a,in,b}, "
         "~15%% climbing, ~7%% root spellings, each followed by `chk`; outside handles: pool {a,b,c}, followed by a new "
         "`guard`); spy bottom: `calls` after every op. sweep: every fixed stack x 19 op/argument positions x every "
-        "string of <= %d segments (stacks with disk or cache: <= %d) over {a,in,.,..,\"\"} with/without leading/trailing "
-        "/, `chk` after every call, fresh environment whenever the inside changed. oracle: %d histories of the same "
+        "string of <= %d segments (stacks with disk or cache: <= %d, the non-core memory stacks: <= %d) over "
+        "{a,in,.,..,\"\"} plus every string of <= 3 segments over {inx,in,..,a} (a sibling whose name extends the "
+        "root's name), with/without leading/trailing /, `chk` after every call, fresh environment whenever the inside changed. oracle: %d histories of the same "
         "generator with real ciphers, disk and cache bottoms, run in-process with `chk` after every inside call. "
         "non-trivial = the history has a successful mutation and a refused call; distinct = distinct op-line "
-        "sequences (64-bit digest)" % (n_gen, NSHARDS, segs_light, segs_heavy, n_oracle))
+        "sequences (64-bit digest)" % (n_gen, NSHARDS, segs_light, segs_heavy, segs_extra, n_oracle))
     concrete_found = False
 
     # --- known finding witness (runs in the background: the hang is observed through the 20 s watchdog)
@@ -332,7 +333,7 @@ def run(ctx):
 
     def sweep_shard(shard):
         out = ctx.path("sweep%02d.out" % shard)
-        rc, err = _sh(ctx, [go, "sweep", str(segs_light), str(shard), str(NSHARDS), str(segs_heavy)], stdout=out)
+        rc, err = _sh(ctx, [go, "sweep", str(segs_light), str(shard), str(NSHARDS), str(segs_heavy), str(segs_extra)], stdout=out)
         if rc == 124:
             return ["FAIL hang sweep shard %d did not finish" % shard]
         if rc != 0:
@@ -401,7 +402,7 @@ def run(ctx):
                 kv = _kv(l)
                 for k in sw:
                     sw[k] += int(kv.get(k, 0))
-                shape = {k: kv[k] for k in ("stacks", "light", "heavy", "positions") if k in kv}
+                shape = {k: kv[k] for k in ("stacks", "light", "extra", "heavy", "positions") if k in kv}
     nblocks = _report_fail_blocks(ctx, go, allsweep, "exhaustive sweep")
     concrete_found |= nblocks > 0
     for l in allsweep:
@@ -413,7 +414,8 @@ def run(ctx):
     rc, stacks_txt = ctx.capture([go, "stacks"])
     ctx.extra["sweep"] = dict(
         totals=sw, stacks=[l for l in stacks_txt.split("\n") if l.strip()],
-        strings_light="%s stacks x %s strings (<= %d segments)" % tuple(shape.get("light", "0:0").split(":") + [segs_light]),
+        strings_light="%s core stacks x %s strings (<= %d segments)" % tuple(shape.get("light", "0:0").split(":") + [segs_light]),
+        strings_extra="%s further memory stacks x %s strings (<= %d segments)" % tuple(shape.get("extra", "0:0").split(":") + [segs_extra]),
         strings_heavy="%s stacks x %s strings (<= %d segments)" % tuple(shape.get("heavy", "0:0").split(":") + [segs_heavy]),
         positions=int(shape.get("positions", 0)),
         note="cases = (stack, op/argument position, string) triples actually executed; calls include the battery run "
